@@ -235,7 +235,29 @@ def r2_rejections(ctx, f, rep):
 def r3_accept_payload(ctx, f, rep):
     rep.rule('C17-R3', 'accept_payload = (dst == identity) || (message == Announce && dst.addr() == identity.addr())')
     b = f.fn('Foca::accept_payload')
-    H = ('deref', ('param', 0, 2))
+    # the header is the `&Header<T>` parameter; the identity is self.identity, read here or handed in as `&self.identity` by
+    # every caller (the function may be a method or an associated function)
+    hk = [k for k in range(1, b.argc + 1) if 'Header<' in str(b.locals[k])]
+    H = ('deref', ('param', 0, hk[0] if len(hk) == 1 else 2))
+    ik = [k for k in range(1, b.argc + 1) if str(b.locals[k]) in ('&T',)]
+    id_param = None
+    if len(ik) == 1 and 'Foca<' not in str(b.locals[1]):
+        ok_callers = 0
+        for cb in {c[0].nname: c[0] for c in f.callers_of(lambda n: n == 'Foca::accept_payload')}.values():
+            for cp in ctx.paths(f, cb, 'none'):
+                for c in cp.calls():
+                    if c['res'] == 'Foca::accept_payload':
+                        if c['args'][ik[0] - 1] == ('ref', q.self_field('identity'), False):
+                            ok_callers += 1
+                        else:
+                            ok_callers = -10 ** 6
+        if ok_callers > 0:
+            id_param = ik[0]
+    is_ident = lambda x: q.is_self_field_load(x, 'identity') or (
+        id_param is not None and x in (('load', ('deref', ('param', 0, id_param)), 0),))
+    ident_refs = {('ref', q.self_field('identity'), False)}
+    if id_param is not None:
+        ident_refs |= {('param', 0, id_param), ('ref', ('deref', ('param', 0, id_param)), False)}
     rows = []
     for p in ctx.paths(f, b, 'none'):
         calls = {c['id']: c for c in p.calls()}
@@ -246,7 +268,7 @@ def r3_accept_payload(ctx, f, rep):
             if es:
                 sides = [es[1], es[2]]
                 if any(x[0] == 'load' and x[1] == ('field', H, 'dst', None) for x in sides) and \
-                        any(q.is_self_field_load(x, 'identity') for x in sides):
+                        any(is_ident(x) for x in sides):
                     lab = 'dst==id'
                 elif any(x[0] == 'load' and x[1] == ('field', H, 'message', None) for x in sides) and \
                         any(q.is_variant(x, 'Message', 'Announce') for x in sides):
@@ -255,10 +277,15 @@ def r3_accept_payload(ctx, f, rep):
                     lab = 'addr=='
                 if lab:
                     conds.append((lab, q.cond_truth(c) == es[0]))
+            if not es:
+                # `matches!(header.message, Message::Announce)` / `match header.message { .. }`: the same test as `==`
+                vs = q.variant_test(f, c, lambda v: v[0] == 'load' and v[1] == ('field', H, 'message', None))
+                if vs is not None and (vs == {'Announce'} or 'Announce' not in vs):
+                    conds.append(('announce', vs == {'Announce'}))
         r = p.ret
         if r[0] == 'binop' and r[1] == 'Eq' and all(x[0] == 'call' and calls[x[1]]['decl'] == 'identity::Identity::addr' for x in r[2:4]):
             recv = {calls[x[1]]['args'][0] for x in r[2:4]}
-            good_addr = recv == {('ref', q.self_field('identity'), False), ('ref', ('field', H, 'dst', None), False)}
+            good_addr = len(recv) == 2 and ('ref', ('field', H, 'dst', None), False) in recv and bool(recv & ident_refs)
             rows.append((tuple(conds), 'addr==' if good_addr else 'other'))
         elif r[0] == 'const':
             rows.append((tuple(conds), bool(r[2])))
